@@ -27,6 +27,9 @@ pub enum Op {
     Amplify { inp: i32, out: i32, err: i32, chunk: usize, k_out: usize, k_err: usize, so: u32, se: u32 },
     /// pipeline stage: bytes x -> 3x+tag, per chunk; every `line_every` chunks a numbered line on err
     Filter { inp: i32, out: i32, err: i32, chunk: usize, tag: u8, line_every: usize, id: u8 },
+    /// like `head -c max` through a filter: passes on the first `max` bytes (transformed), then goes on
+    /// to the next op without reading any further
+    Head { inp: i32, out: i32, chunk: usize, tag: u8, max: usize },
     /// write until the reader goes away (gives up after 3 EPIPEs) or `max` bytes
     Flood { fd: i32, stream: u32, chunk: usize, max: usize },
     /// `pieces` x (write piece_len, sleep gap)
@@ -84,6 +87,13 @@ impl Kernel {
             Op::Read { fd, .. } | Op::ReadAll { fd, .. } | Op::ReadN { fd, .. } => Next::Read(*fd),
             Op::Write { fd, len, chunk, .. } => Next::Write(*fd, (*len - p.cur.done).min((*chunk).max(1))),
             Op::Cat { inp, .. } | Op::Amplify { inp, .. } | Op::Filter { inp, .. } => Next::Read(*inp),
+            Op::Head { inp, max, .. } => {
+                if p.cur.done >= *max {
+                    Next::Free
+                } else {
+                    Next::Read(*inp)
+                }
+            }
             Op::Flood { fd, chunk, max, .. } => Next::Write(*fd, (*max - p.cur.done).min((*chunk).max(1))),
             Op::Trickle { fd, piece_len, .. } => {
                 if p.cur.phase == 0 {
@@ -325,6 +335,33 @@ impl Kernel {
                             let line = format!("stage{}:{}\n", id, c.count / line_every);
                             c.out.push((err, line.into_bytes(), 0));
                         }
+                    }
+                    Err(Blk::Block) => {}
+                    Err(Blk::Err(_)) => self.advance(pid),
+                }
+            }
+            Op::Head { inp, out, chunk, tag, max } => {
+                let done = self.proc(pid).cur.done;
+                if done >= max {
+                    self.advance(pid);
+                    return;
+                }
+                let want = (max - done).min(self.avail_hint(pid, inp, chunk.max(1))).max(1);
+                let mut buf = vec![0u8; want];
+                match self.try_read(pid, inp, &mut buf, None) {
+                    Ok(0) => {
+                        self.note_eof(pid, inp);
+                        self.advance(pid);
+                    }
+                    Ok(n) => {
+                        buf.truncate(n);
+                        self.rx_push(pid, inp, &buf);
+                        for b in buf.iter_mut() {
+                            *b = filter_byte(*b, tag);
+                        }
+                        let c = &mut self.proc_mut(pid).cur;
+                        c.out.push((out, buf, 0));
+                        c.done += n;
                     }
                     Err(Blk::Block) => {}
                     Err(Blk::Err(_)) => self.advance(pid),
